@@ -27,6 +27,7 @@ fn main() {
         "hash" => streams::hash::run(&mut out, seed, thorough, replay),
         "id" => streams::id::run(&mut out, seed, thorough, replay),
         "closest" => streams::closest::run(&mut out, seed, thorough, replay),
+        "codec" => streams::codec::run(&mut out, seed, thorough, replay),
         "api" => streams::api::run(&mut out, seed, thorough, replay),
         "server" => streams::server::run(&mut out, seed, thorough, replay),
         "rtable" => streams::rtable::run(&mut out, seed, thorough, replay),
